@@ -189,7 +189,7 @@ func txSubSetup(s *rt.Sim, tier string) func() {
 			}
 		}
 		sleep(5 * time.Second)
-		if pair.A.Deadline+pair.B.Deadline > 0 {
+		if pair.A.Deadline+pair.B.Deadline > 0 || keepAliveTimedOut(cw, sw) {
 			return
 		}
 		// the wire against the model acknowledgement window
